@@ -214,6 +214,7 @@ def batches(tier, seed):  # noqa: F811
     total = len(R.shapes(n)) * (len(R.shapes(n)) - 1)
     step = total // 4 + 1
     b = _orig_batches(tier, seed) + [('batch_pairs', [n, lo, lo + step, seed + lo]) for lo in range(0, total, step)]
+    b.append(('batch_tall', []))
     if tier == 'quick':
         b += [('batch_larger', ['random', seed * 3 + i, 40, 6, 16, 0]) for i in range(2)]
         b += [('batch_larger', ['case', seed, 6, 0, 4, 0])]
@@ -253,3 +254,76 @@ def larger_check(shape, cards, m):
 def batch_larger(kind, seed, count, lo_n, hi_n, max_bytes, part=0, parts=1):
     from . import larger
     return larger.batch_models(__name__, 'larger_check', 'tree-ops-larger', kind, seed, count, lo_n, hi_n, max_bytes, part, parts)
+
+
+# -- tall models: "returns a value, without raising, on every well-formed model" ------------------------------
+
+def replay_tall(depth, siblings):
+    """a spine of `depth` mandatory features (optionally each with an optional leaf sibling), built iteratively;
+    the six operations run under the interpreter's default recursion limit and must equal the arithmetic facts."""
+    import sys
+    from flamapy.metamodels.fm_metamodel.models import Feature, Relation, FeatureModel
+    root = Feature('R')
+    cur = root
+    for i in range(depth):
+        c = Feature('S%d' % i)
+        cur.add_relation(Relation(cur, [c], 1, 1))
+        if siblings:
+            cur.add_relation(Relation(cur, [Feature('O%d' % i)], 0, 1))
+        cur = c
+    m = FeatureModel(root, [])
+    want_leaves = 1 + (depth if siblings else 0) if depth else 1
+    nonleaf = depth
+    children_total = depth * (2 if siblings else 1)
+    old = sys.getrecursionlimit()
+    sys.setrecursionlimit(1000)
+    out = []
+    try:
+        def run(label, fn):
+            try:
+                return fn()
+            except RecursionError:
+                out.append('%s raises RecursionError on a well-formed model of depth %d' % (label, depth))
+            except Exception as exc:
+                out.append('%s raises %s: %s on a model of depth %d' % (label, type(exc).__name__, exc, depth))
+            return None
+        r = run('FMCountLeafs', lambda: FMCountLeafs().execute(m).get_result())
+        if r is not None and r != want_leaves:
+            out.append('leaf count %r != %d' % (r, want_leaves))
+        r = run('FMLeafFeatures', lambda: FMLeafFeatures().execute(m).get_result())
+        if r is not None and len(r) != want_leaves:
+            out.append('leaf listing has %d entries, expected %d' % (len(r), want_leaves))
+        r = run('FMMaxDepthTree', lambda: FMMaxDepthTree().execute(m).get_result())
+        if r is not None and r != depth:
+            out.append('max depth %r != %d' % (r, depth))
+        r = run('FMAverageBranchingFactor', lambda: FMAverageBranchingFactor().execute(m).get_result())
+        if r is not None and nonleaf and r != round(children_total / nonleaf, 2):
+            out.append('branching factor %r != %r' % (r, round(children_total / nonleaf, 2)))
+
+        def anc():
+            op = FMFeatureAncestors()
+            op.set_feature(cur)
+            return op.execute(m).get_result()
+        r = run('FMFeatureAncestors', anc)
+        if r is not None and (len(r) != depth or (depth and r[-1] is not root)):
+            out.append('ancestors of the deepest feature: %d entries, expected %d ending at the root' % (len(r), depth))
+        r = run('FMVariationPoints', lambda: FMVariationPoints().execute(m).get_result())
+        if r is not None and len(r) != (depth if siblings else 0):
+            out.append('variation points: %d features, expected %d' % (len(r), depth if siblings else 0))
+    finally:
+        sys.setrecursionlimit(old)
+    return out
+
+
+def batch_tall():
+    res = {'instances': 0, 'nontrivial': 0, 'violations': [], 'native_runs': 0}
+    for depth in (0, 1, 300, 700, 990, 1500, 3000):
+        for siblings in (False, True):
+            res['instances'] += 1
+            res['native_runs'] += 6
+            res['nontrivial'] += 1
+            bad = replay_tall(depth, siblings)
+            if bad:
+                res['violations'].append({'label': 'tall-model', 'detail': bad[0], 'replay_func': 'replay_tall', 'replay_args': [depth, siblings]})
+    res['sample'] = {'depths': [0, 1, 300, 700, 990, 1500, 3000], 'recursion_limit': 1000}
+    return res
